@@ -123,6 +123,7 @@ struct Property {
     const char* level;           // exploration | fault_enumeration
     const char* rule;            // evidence "rule" text
     uint64_t quick_runs, thorough_runs;
+    uint64_t recheck = 256;      // how many of the first runs are executed a second time (determinism self-check)
     void (*run)(RunCtx&);
     std::vector<std::string> assumptions;
 };
